@@ -275,6 +275,22 @@ theorem delete_gone (s : State) (h : Inv' parse s) (id : Id) : queryId (exec par
   rw [get_abs] at hg
   simpa [queryId] using hg
 
+/-- … and stays gone: an `Update` that writes back an item read before the record was removed (deleted after
+delivery, or swept by the expiry job while `ReportFailure`/`Sync` held their copy) changes nothing — it does
+not bring the record back. (`Store.Update` is `badgerhold.Update`, which refuses an unknown key:
+`gen_update_skeleton`; the harness writes such stale items back, `staleupdate` lines.) -/
+theorem stale_update_is_noop (s : State) (id : Id) (hgone : queryId s id = none) (pending : Bool) (expires : Nat)
+    (props : Props) : exec parse s (.update id pending expires props) = s := by
+  unfold queryId at hgone
+  simp [exec, plan, hgone, runSteps]
+
+theorem deleted_then_stale_update_gone (s : State) (h : Inv' parse s) (id : Id) (pending : Bool) (expires : Nat)
+    (props : Props) :
+    queryId (exec parse (exec parse s (.delete id)) (.update id pending expires props)) id = none := by
+  have hg := delete_gone (parse := parse) s h id
+  rw [stale_update_is_noop (parse := parse) _ id hg]
+  exact hg
+
 theorem sweep_exact (s : State) (h : Inv' parse s) (now : Nat) (id : Id) :
     get id (abs parse (sweep parse s now)) =
       (get id (abs parse s)).filter (fun r => !decide (r.expires < now)) := by
